@@ -4,6 +4,7 @@ import itertools
 import json
 
 from vf import gen_data, gen_types, harness
+from vf.checks.c08 import ambiguous_union
 from vf.sermodel import SerCtx, json_only, ser
 from vf.spec import ALIASERS, ObjectT, Program, Unspecified
 
@@ -166,6 +167,9 @@ def run(env):
             t = g.type(0)
         else:
             t = g.object(0, kind="dataclass" if rng.random() < 0.7 else None)
+        if ambiguous_union(t):
+            env.count("abstain:class-ambiguous union")  # "first alternative whose class matches" may legitimately be another alternative
+            continue
         prog = Program(t)
         try:
             prog.load()
